@@ -36,6 +36,7 @@ type c06Setup struct {
 	Life   string
 	Config string
 	API    string
+	Shape  string // how the policy value expresses the allowed set (c06_policy.go); "" = true entries only
 }
 
 var c06Provs = []string{"string", "loader", "own-parse", "own-new", "compiled", "compiled-data",
@@ -56,7 +57,11 @@ var c06Configs = []string{"", "cache-off", "dev", "auto-reload"}
 var c06APIs = []string{"Render", "RenderTo", "Load+Template.Render", "Load+Template.RenderTo"}
 
 func (s c06Setup) String() string {
-	return fmt.Sprintf("templates(%s) via %s; engine calls %q; config %q; rendered with %s", s.Scope, s.Prov, s.Life, s.Config, s.API)
+	shape := s.Shape
+	if shape == "" {
+		shape = c06BaseShape
+	}
+	return fmt.Sprintf("templates(%s) via %s; engine calls %q; config %q; rendered with %s; policy shape %s", s.Scope, s.Prov, s.Life, s.Config, s.API, shape)
 }
 
 // c06RunSetup renders the case on an engine set up as s says. It returns the outcome of every render made while the
@@ -87,13 +92,9 @@ func c06RunSetup(c *Case, s c06Setup) []Outcome {
 			})
 		}
 	}
-	strict := &twig.DefaultSecurityPolicy{AllowedFilters: map[string]bool{}, AllowedFunctions: map[string]bool{}, AllowedTags: map[string]bool{}}
-	for _, f := range c.Policy.Filters {
-		strict.AllowedFilters[f] = true
-	}
-	for _, f := range c.Policy.Functions {
-		strict.AllowedFunctions[f] = true
-	}
+	shaped := c06MakePolicy(s.Shape, c.Policy.Filters, c.Policy.Functions, c06Universe(c.Templates, c.SpyFilters, c.SpyFunctions))
+	strict := shaped.Policy
+	registered := false
 	allowAll := &c06DenyPolicy{}
 	target := "box"
 	inScope := func(name string) bool {
@@ -244,6 +245,10 @@ func c06RunSetup(c *Case, s c06Setup) []Outcome {
 			case "E":
 				eng.EnableSandbox(strict)
 				strictInForce = true
+				if shaped.Withdraw != nil && !shaped.RenderFirst {
+					shaped.Withdraw() // the engine already holds the policy: a live edit
+					shaped.Withdraw = nil
+				}
 			case "A":
 				eng.EnableSandbox(allowAll)
 				strictInForce = false
@@ -253,7 +258,15 @@ func c06RunSetup(c *Case, s c06Setup) []Outcome {
 				if err := register(); err != nil {
 					return "", err
 				}
+				registered = true
 			case "R":
+				if strictInForce && shaped.Withdraw != nil {
+					if registered {
+						render() // while everything is still granted; not judged
+					}
+					shaped.Withdraw()
+					shaped.Withdraw = nil
+				}
 				spies = nil
 				out, err := render()
 				o := Outcome{Out: out, Class: mapClass(classify(err)), Spies: append([]Ev(nil), spies...)}
@@ -288,6 +301,9 @@ func c06CheckSetup(e *Env, c *Case, s c06Setup, want Outcome, allowed func(strin
 	r.Hit("setup-prov:" + s.Prov)
 	r.Hit("setup-life:" + s.Life)
 	r.Hit("setup-scope:" + s.Scope)
+	if s.Shape != "" {
+		r.Hit("policy-shape:" + s.Shape)
+	}
 	for k, got := range c06RunSetup(c, s) {
 		var escaped []string
 		for _, ev := range got.Spies {
@@ -326,7 +342,7 @@ func c06CheckSetup(e *Env, c *Case, s c06Setup, want Outcome, allowed func(strin
 		}
 		rp := c.replay(got, want)
 		rp["kind"] = "c06-setup"
-		rp["setup"] = map[string]any{"provenance": s.Prov, "scope": s.Scope, "engine_calls": s.Life, "config": s.Config, "api": s.API, "render_index": k + 1,
+		rp["setup"] = map[string]any{"provenance": s.Prov, "scope": s.Scope, "engine_calls": s.Life, "config": s.Config, "api": s.API, "policy_shape": s.Shape, "render_index": k + 1,
 			"legend": "E=EnableSandbox(policy) A=EnableSandbox(allow-all policy) D=DisableSandbox T=settings+register templates R=render; 'model' holds the base outcome (default set-up, agreed with the Lean model)"}
 		if r.Violate(Violation{Key: key, What: s.String() + ": " + what,
 			Broken: "theorem C06_confinement / C06_allowed_unchanged: the policy in force is the rendering engine's, whatever built the template and whatever was called before (implementation-only oracle: same case, other engine set-up)",
@@ -346,7 +362,7 @@ type c06SetupRotor struct{ tick int }
 func (ro *c06SetupRotor) next() c06Setup {
 	t := ro.tick
 	ro.tick++
-	return c06Setup{Prov: c06Provs[t%len(c06Provs)], Scope: c06Scopes[(t/2)%len(c06Scopes)], Life: c06Lives[(t/3)%len(c06Lives)], Config: c06Configs[(t/5)%len(c06Configs)], API: c06APIs[(t/7)%len(c06APIs)]}
+	return c06Setup{Prov: c06Provs[t%len(c06Provs)], Scope: c06Scopes[(t/2)%len(c06Scopes)], Life: c06Lives[(t/3)%len(c06Lives)], Config: c06Configs[(t/5)%len(c06Configs)], API: c06APIs[(t/7)%len(c06APIs)], Shape: c06Shapes[(t/2)%len(c06Shapes)]}
 }
 
 func (ro *c06SetupRotor) sweep() []c06Setup {
@@ -369,6 +385,17 @@ func (ro *c06SetupRotor) sweep() []c06Setup {
 		s.Life = l
 		s.Config = c06Configs[(ro.tick+i)%len(c06Configs)]
 		s.API = c06APIs[(ro.tick/3+i)%len(c06APIs)]
+		out = append(out, s)
+	}
+	// every policy shape once, on the default provenance, the other dimensions rotating
+	for i, sh := range c06Shapes {
+		if sh == c06BaseShape {
+			continue
+		}
+		s := base
+		s.Prov, s.Shape = "string", sh
+		s.Life = c06Lives[(ro.tick+i)%len(c06Lives)]
+		s.API = c06APIs[(ro.tick/5+i)%len(c06APIs)]
 		out = append(out, s)
 	}
 	return out
